@@ -180,7 +180,8 @@ Inductive event :=
 | EStart (i : nat) (avoid ws_trivial : bool)   (* a sync call begins *)
 | EStep (i : nat) (g : urgency)                (* its next server request, and what follows locally *)
 | EAbandon (i : nat)                           (* error before effect / process stop *)
-| ELost (i : nat) (g : urgency).               (* server performs the request, the reply is lost *)
+| ELost (i : nat) (g : urgency)                (* server performs the request, the reply is lost *)
+| EForeign (ops : list sop).                   (* another implementation adds a version on top of the latest *)
 
 Definition set_node (s : sys) (i : nat) (n : node) : sys :=
   {| srv := srv s; nodes := <[i := n]> (nodes s); results := results s |}.
@@ -246,6 +247,9 @@ Definition sys_step (s : sys) (e : event) : sys :=
           end
       | _ => s
       end
+  | EForeign ops =>
+      {| srv := {| chain := chain (srv s) ++ [ops]; snap := snap (srv s) |};
+         nodes := nodes s; results := results s |}
   end.
 
 Definition run (s : sys) (h : list event) : sys := fold_left sys_step h s.
@@ -263,6 +267,9 @@ Fixpoint wf_history (s : sys) (h : list event) : bool :=
           | Some {| n_rep := r; n_sync := None |} => valid_seqb (r_tasks r) (sync_form ops)
           | _ => true
           end
+      | EForeign ops =>
+          (* a foreign version must be valid on the state of the latest version *)
+          valid_seqb (applyl ∅ (concat (chain (srv s)))) ops
       | _ => true
       end && wf_history (sys_step s e) h'
   end.
